@@ -31,6 +31,7 @@ TABLE = [
     ("CENSUS_OUTPUT_INDEX", _KS, r"output\[" + _BEFORE_TESTS, "count"),
     ("CENSUS_COOKIE_INDEX", _KS, r"cookie\[" + _BEFORE_TESTS, "count"),
     ("CENSUS_BUF_INDEX", _KS, r"buf\[" + _BEFORE_TESTS, "count"),
+    # informational: 1 on a tree without the fix-c27 time repair (panicking `UNIX_EPOCH + duration`), 0 with it
     ("CENSUS_PLUS_TIME", _KS, r"UNIX_EPOCH\s*\+" + _BEFORE_TESTS, "count"),
     # the shipped daemon aborts on panic (so a panic while loading the key file is a crash)
     ("RELEASE_PANIC_STRATEGY", "Cargo.toml", r"\[profile\.release\][^\[]*?panic = \"(\w+)\"", "text"),
